@@ -27,6 +27,10 @@ type GenConfig struct {
 	RevertByRef     bool // reverts may designate their target by the reference it was created under
 	RefBurstPct     int  // percentage of rounds that are a burst of creates from @world with no account lock in common (sharing one reference when there is a reference pool)
 	Cancels         int
+	HandoffCancels  int // max callers that go away at the very moment their entry is handed to the batcher
+	Holds           int // max slow requests (held back for a stretch while everything else moves)
+	VarSourcesPct   int // percentage of rounds made of 3-5 creates that all use the one script whose two sources and destination are variables (one cached program, many bindings, @world among them; some sequential, some racing)
+	LongPrefixPct   int // percentage of histories whose funding prefix ends with one transaction of 13-24 postings (which reverts then aim at)
 	SmallBatches    bool
 	ExplicitTime    bool
 	FailingPct      int // share of creates that are meant to fail (compile error, ...)
@@ -201,6 +205,35 @@ func GenPlan(t *rapid.T, cfg GenConfig) *Plan {
 			o.Script += sendScript(fmt.Sprint(amt), cfg.Assets[1], "@world", "@"+acc)
 		}
 	}
+	longTx := -1
+	if cfg.LongPrefixPct > 0 && rapid.IntRange(0, 99).Draw(t, "longPrefix") < cfg.LongPrefixPct {
+		// one more transaction in the prefix, with many postings: a chain in which every hop spends what the
+		// previous one delivered, or a fan-out (its order matters to whatever replays or inverts it)
+		o := add(Op{Kind: OpCreate})
+		o.Barrier = len(p.Ops) - 1
+		o.Grants = map[string]string{}
+		m := rapid.IntRange(13, 24).Draw(t, "nLongPrefix")
+		chain := rapid.Bool().Draw(t, "longPrefixChain")
+		prev := "world"
+		for i := 0; i < m; i++ {
+			d := cfg.Accounts[i%len(cfg.Accounts)]
+			if chain {
+				o.Postings = append(o.Postings, ledger.Posting{Source: prev, Destination: d, Asset: cfg.Assets[0], Amount: big.NewInt(10)})
+				prev = d
+			} else {
+				o.Postings = append(o.Postings, ledger.Posting{Source: "world", Destination: d, Asset: cfg.Assets[0], Amount: big.NewInt(int64(1 + i))})
+			}
+		}
+		longTx = nFund
+	}
+	if rapid.IntRange(0, 3).Draw(t, "overdrawnPrefix") == 0 {
+		// one account starts the history in the red (it was allowed to): whatever reads its balance meets a negative number
+		o := add(Op{Kind: OpCreate})
+		o.Barrier = len(p.Ops) - 1
+		acc := cfg.Accounts[len(cfg.Accounts)-1]
+		o.Script = sendScript("30", cfg.Assets[0], fmt.Sprintf("@%s allowing unbounded overdraft", acc), "@world")
+		o.Grants = map[string]string{acc + "/" + cfg.Assets[0]: ""}
+	}
 	if cfg.MetaNaming {
 		o := add(Op{Kind: OpSaveMeta, TargetType: ledger.MetaTargetTypeAccount, TargetAcc: "cfg"})
 		o.Barrier = len(p.Ops) - 1
@@ -214,6 +247,28 @@ func GenPlan(t *rapid.T, cfg GenConfig) *Plan {
 			n = rapid.IntRange(1, cfg.MaxPerRound).Draw(t, "perRound")
 		}
 		var template *Op
+		if cfg.VarSourcesPct > 0 && rapid.IntRange(0, 99).Draw(t, "varSources") < cfg.VarSourcesPct {
+			// one script text for every request of the round (so one compiled program serves them all): who pays
+			// first, who pays the rest and who receives are bindings -- @world among the first payers now and then.
+			// Some of the requests run one after the other, the rest race
+			payer := rapid.SampledFrom(cfg.Accounts[:2]).Draw(t, "vsPayer")
+			k := rapid.IntRange(3, 5).Draw(t, "vsN")
+			for i := 0; i < k; i++ {
+				o := add(Op{Kind: OpCreate, Barrier: start})
+				if rapid.Bool().Draw(t, "vsAlone") {
+					o.Barrier = len(p.Ops) - 1
+					start = len(p.Ops) // those that follow wait for it
+				}
+				o.Grants = map[string]string{}
+				o.Script = fmt.Sprintf("vars {\n  account $p\n  account $q\n  account $d\n}\nsend [%s 40] (\n  source = {\n    $p\n    $q\n  }\n  destination = $d\n)\n", cfg.Assets[0])
+				first := payer
+				if rapid.IntRange(0, 3).Draw(t, "vsWorld") == 0 {
+					first = "world"
+				}
+				o.Vars = map[string]string{"p": first, "q": rapid.SampledFrom(cfg.Accounts).Draw(t, "vsQ"), "d": rapid.SampledFrom(cfg.Accounts).Draw(t, "vsD")}
+			}
+			continue
+		}
 		if cfg.RefBurstPct > 0 && rapid.IntRange(0, 99).Draw(t, "refBurst") < cfg.RefBurstPct {
 			// a pure race on one reference: the requests have no account lock in common, so only the
 			// reference reservation and the store lookup order them; some of them are previews
@@ -278,6 +333,9 @@ func GenPlan(t *rapid.T, cfg GenConfig) *Plan {
 				}
 			case OpRevert:
 				o.TargetTx = int64(rapid.IntRange(0, 6).Draw(t, "target"))
+				if longTx >= 0 && rapid.IntRange(0, 2).Draw(t, "targetLong") == 0 {
+					o.TargetTx = int64(longTx)
+				}
 				o.Force = rapid.IntRange(0, 3).Draw(t, "force") == 0
 				if cfg.RevertByRef && rapid.Bool().Draw(t, "revertByRef") {
 					for _, r := range cfg.RefPool {
@@ -367,6 +425,16 @@ func GenPlan(t *rapid.T, cfg GenConfig) *Plan {
 			p.CancelAfter = append(p.CancelAfter, [2]int{rapid.IntRange(0, len(p.Ops)-1).Draw(t, "cancelOp"), rapid.IntRange(0, 12).Draw(t, "cancelAfter")})
 		}
 	}
+	for i := 0; i < cfg.HandoffCancels; i++ {
+		if rapid.IntRange(0, 1).Draw(t, "handoffCancel") == 0 {
+			p.CancelAtHandoff = append(p.CancelAtHandoff, rapid.IntRange(1, 10).Draw(t, "cancelAtHandoff"))
+		}
+	}
+	for i := 0; i < cfg.Holds; i++ {
+		if rapid.IntRange(0, 1).Draw(t, "hold") == 0 {
+			p.Hold = append(p.Hold, [3]int{rapid.IntRange(0, len(p.Ops)-1).Draw(t, "holdOp"), rapid.IntRange(0, 10).Draw(t, "holdFrom"), rapid.IntRange(5, 60).Draw(t, "holdFor")})
+		}
+	}
 	if cfg.SmallBatches && rapid.Bool().Draw(t, "smallBatch") {
 		p.BatchSize = rapid.IntRange(1, 3).Draw(t, "batchSize")
 	}
@@ -381,7 +449,7 @@ func PlanKey(p *Plan) string {
 	for _, o := range p.Ops {
 		fmt.Fprintf(&sb, "%s|%v|%s|%d|%s|%v|%s|%s|%d|%v|%s|%s|%v|%s;", o.Kind, o.DryRun, o.IK, o.Barrier, o.Script, o.Vars, postingsKey(o.Postings), o.Reference+">"+o.TargetRef, o.TargetTx, o.Force, o.TargetType, o.TargetAcc, o.Meta, o.Key)
 	}
-	fmt.Fprintf(&sb, "c%v q%v%v f%v r%v x%v%v b%d s%v", p.CrashAt, p.CloseAt, p.CloseAfterHandoff, p.FaultAt, p.ReadFaultAt, p.CancelAt, p.CancelAfter, p.BatchSize, p.SlowStore)
+	fmt.Fprintf(&sb, "c%v q%v%v f%v r%v%v x%v%v%v h%v b%d s%v", p.CrashAt, p.CloseAt, p.CloseAfterHandoff, p.FaultAt, p.ReadFaultAt, p.ReadFaultOf, p.CancelAt, p.CancelAfter, p.CancelAtHandoff, p.Hold, p.BatchSize, p.SlowStore)
 	return sb.String()
 }
 
